@@ -186,6 +186,19 @@ def run(tier, seed, replay):
         lines.append("C01.dia_abs " + json.dumps({"a": {"rows": shape[0], "cols": shape[1],
                                                          "diags": [[int(o), [[int(z.real), int(z.imag)] for z in row]] for o, row in zip(sci.offsets, sci.data)]}}))
         expect.append(("absraw", M.to_array()))
+        # matmul_dia on operands with distinct offsets in any stored order and arbitrary values outside the rectangle
+        def dia_json(D):
+            sc_ = D.as_scipy()
+            return {"rows": D.shape[0], "cols": D.shape[1], "diags": [[int(o), [[int(z.real), int(z.imag)] for z in row]] for o, row in zip(sc_.offsets, sc_.data)]}
+
+        def messy_unique(arr):
+            D = build(arr, "dia_messy", rng)
+            return D if len(set(int(o) for o in D.as_scipy().offsets)) == D.num_diag else build(arr, "dia", rng)
+        inner_d = pattern(rng, (shape[1], int(rng.integers(1, 5))), str(rng.choice(kinds)))
+        DL, DR = messy_unique(a), messy_unique(inner_d)
+        lines.append("C01.matmul_dia " + json.dumps({"a": dia_json(DL), "b": dia_json(DR), "scale": [int(sc.real), int(sc.imag)]}))
+        prod = _data.matmul_dia(DL, DR, sc)
+        expect.append(("abs_offsets", prod.to_array(), sorted(int(o) for o in prod.as_scipy().offsets)))
     model = core.run_driver(lines)
     ndis, first = 0, None
     for line, ex, m in zip(lines, expect, model):
@@ -197,6 +210,9 @@ def run(tier, seed, replay):
             if m["r"] != e["r"] or not np.array_equal(dec(m["back_c"]), e["back_c"]) or not np.array_equal(dec(m["back_f"]), e["back_f"]) \
                     or not np.array_equal(dec(m["transposed_view"]), e["tview"]) or not e["tfortran"]:
                 bad = {"model_rows": m["r"], "impl_rows": e["r"]}
+        elif ex[0] == "abs_offsets":
+            if not np.array_equal(dec(m["abs"]), ex[1]) or (sorted(m["offsets"]) != ex[2] and np.abs(ex[1]).max() > 0):
+                bad = {"model_offsets": m["offsets"], "impl_offsets": ex[2]}
         elif ex[0] == "dia_of_dense":
             e = ex[1]
             nz = sorted(o for o, vals in m["diags"] if any(a_ or b_ for a_, b_ in vals))
